@@ -43,6 +43,25 @@ type CheckCfg struct {
 	Assumptions    []string           `json:"assumptions"`
 	Oracle         string             `json:"oracle"`
 	Files          []string           `json:"files"`
+	// Fallback names harness files and functions that use only the public API.
+	// They are loaded when the regular (white-box) files do not type-check
+	// against the current tree, e.g. after a refactoring renamed a private
+	// field. A violation they find is reported as usual; without one the run
+	// stays INCONCLUSIVE, because the white-box part was not decided.
+	Fallback *struct {
+		Files     []string     `json:"files"`
+		Harnesses []HarnessRef `json:"harnesses"`
+	} `json:"fallback"`
+}
+
+func setHarnessFilter(files []string) {
+	harnessFilter = nil
+	if len(files) > 0 {
+		harnessFilter = map[string]bool{}
+		for _, f := range files {
+			harnessFilter[f] = true
+		}
+	}
 }
 
 // outDir is where evidence and replays go (VERIF_OUT overrides, for scratch evaluations).
@@ -138,14 +157,21 @@ func runCheck(id, tier string) int {
 	}
 	seed := int64(envInt("VERIF_SEED", 1))
 	inconclusive := []string{}
-	if len(cc.Files) > 0 {
-		harnessFilter = map[string]bool{}
-		for _, f := range cc.Files {
-			harnessFilter[f] = true
-		}
-	}
+	setHarnessFilter(cc.Files)
 	lt0 := time.Now()
 	P, err := LoadProgram(vd)
+	if err != nil && cc.Fallback != nil {
+		setHarnessFilter(cc.Fallback.Files)
+		if P2, err2 := LoadProgram(vd); err2 == nil {
+			msg := err.Error()
+			if len(msg) > 400 {
+				msg = msg[:400] + "…"
+			}
+			inconclusive = append(inconclusive, "the white-box harnesses do not type-check against the current tree; only the API-level harnesses ran: "+msg)
+			P, err = P2, nil
+			cc.Harnesses = cc.Fallback.Harnesses
+		}
+	}
 	if err != nil {
 		fmt.Println("INCONCLUSIVE: cannot load /repo with harnesses:", err)
 		writeEvidence(id, tier, seed, nil, &cc, &tc, []string{"load failed: " + err.Error()}, nil, 0, time.Since(t0).Seconds(), nil, 0)
@@ -596,10 +622,14 @@ func replayTape(path string) int {
 	os.MkdirAll(filepath.Join(vd, ".work"), 0o755)
 	if cb, err := os.ReadFile(filepath.Join(vd, "checks", nt.Prop+".json")); err == nil {
 		var cc CheckCfg
-		if json.Unmarshal(cb, &cc) == nil && len(cc.Files) > 0 {
-			harnessFilter = map[string]bool{}
-			for _, f := range cc.Files {
-				harnessFilter[f] = true
+		if json.Unmarshal(cb, &cc) == nil {
+			setHarnessFilter(cc.Files)
+			if cc.Fallback != nil {
+				for _, h := range cc.Fallback.Harnesses {
+					if h.Func == nt.Harness {
+						setHarnessFilter(cc.Fallback.Files)
+					}
+				}
 			}
 		}
 	}
